@@ -25,7 +25,9 @@ PROP = {'engine': 'c18',
                  'DelTxs(box) also tells the pool to delete the box\'s sub txs (a box in a block executes them; TxGuard records them as appeared on the fork)',
                  'DelTxs(sub tx) makes every box that contains it "may be pending": the pool may drop it (it can no longer be executed) or keep it',
                  'a box counts as expired when it or one of its sub txs is expired; entries expired at a query time may be dropped for good by that query',
-                 'fork monitor: a tx missing from the pool is not judged when a box / sub-tx relative of it is in the pool or on the current fork (mutual exclusion)',
+                 'fork monitor: a tx must be in the pool from an accepted client submission, or from the fork switch that abandons the block carrying it (top level), '
+                 'until it gets onto the current fork (top level or executed inside a box); a sub tx executed inside a box of an abandoned block is not required to come '
+                 'back on its own (the box is); a missing tx is not judged when a box / sub-tx relative of it is in the pool or on the current fork (mutual exclusion)',
                  'fork monitor runs in a child process whose race reports are filtered: only reports with a chain/txpool frame count for C18 (the node\'s own '
                  'background goroutines are property C19)',
                  'porcupine time-outs are counted (porcupine_inconclusive_timeout) and never decide'],
